@@ -73,6 +73,12 @@ class ForLoop:
             indices = np.array(res[0].T, dtype=int)
         else:
             indices = self.values
+        if np.any(np.asarray(indices) < 1):
+            # Negative zero-based indices would silently wrap around to the end
+            raise ValueError(
+                "Index of symbol {} is out of bounds in for loop over {} "
+                "(Modelica uses 1-based indexing).".format(tree.name, self.name)
+            )
         self.indexed_symbols[e] = ForLoopIndexedSymbol(tree, transpose, index_function(indices - 1))
 
 
@@ -916,8 +922,36 @@ class Generator(TreeListener):
                             )
                         sl = sl - 1
                     elif isinstance(sl, slice):
-                        # Modelica indexing starts from one;  Python from zero.
-                        sl = slice(None if sl.start is None else sl.start - 1, sl.stop, sl.step)
+                        start = 1 if sl.start is None else sl.start
+                        stop = dim if sl.stop is None else sl.stop
+                        step = 1 if sl.step is None else sl.step
+                        if all(isinstance(x, int) for x in (start, stop, step)) and step > 0:
+                            # Constant range: check it against the dimension, like
+                            # scalar indices.
+                            elements = range(start, stop + 1, step)
+                            if len(elements) > 0 and (elements[0] < 1 or elements[-1] > dim):
+                                symbol_name = (
+                                    s.name()
+                                    if len(tree.indices) == 1
+                                    else s.name().split(".")[i] + " in nested symbol " + s.name()
+                                )
+                                raise ValueError(
+                                    "Slice {}:{}:{} of symbol {} is out of bounds. "
+                                    "Indices should be in range [1,{}] "
+                                    "(Modelica uses 1-based indexing).".format(
+                                        start, step, stop, symbol_name, dim
+                                    )
+                                )
+                            # Modelica indexing starts from one;  Python from zero.
+                            if len(elements) > 0:
+                                sl = slice(elements[0] - 1, elements[-1], step)
+                            else:
+                                sl = slice(0, 0, 1)
+                        else:
+                            # Modelica indexing starts from one;  Python from zero.
+                            sl = slice(
+                                None if sl.start is None else sl.start - 1, sl.stop, sl.step
+                            )
                     else:
                         for_loop = self.for_loops[-1]
 
